@@ -507,14 +507,10 @@ func (w *extWorld) bitmap() *model2d.Bitmap {
 // extColliders: the extruded outline as a collider (no triangles: clause "scan" is vacuous for these)
 func extColliders(w *extWorld) []voxCollider {
 	z0, z1 := float64(w.z0), float64(w.z1)
-	// FINDING pending: profileCollider.RayCollisions decides whether a ray meets the top / bottom face by the parity
-	// of ALL 2-D collisions of the ray's xy-shadow beyond that point; when the shadow passes exactly through a vertex
-	// of the outline (both segments ending there report a hit) anywhere further along the ray - also far outside the
-	// z range, where the 3-D ray touches no feature of the surface - the parity is wrong: faces are missed (a ray
-	// through the solid with 0 hits) or reported where the profile is not (hits off the surface).  Reproduction in
-	// /tmp/derived_findings.md (D1).  Rays whose shadow passes through an outline vertex at a parameter >= 0 are not
-	// put to the profile colliders for now; the ones among them that meet the vertex inside the z range are not in
-	// general position anyway (they touch a vertical edge of the surface).
+	// (Finding D1, fixed in /repo: profileCollider.RayCollisions decided the top / bottom faces by the parity of all
+	// later 2-D collisions of the ray's xy-shadow, which is wrong when the shadow passes through an outline vertex
+	// anywhere further along the ray.)  Rays whose shadow meets an outline vertex INSIDE the z range touch a vertical
+	// edge of the surface: they are not in general position and are not put to the profile colliders.
 	verts := map[[2]int]bool{}
 	for _, s := range pixelOutline(w.pix).SegmentSlice() {
 		for _, c := range s {
@@ -527,7 +523,14 @@ func extColliders(w *extWorld) []voxCollider {
 		}
 		for v := range verts {
 			wx, wy := 2*v[0]-o[0], 2*v[1]-o[1]
-			if wx*d[1]-wy*d[0] == 0 && wx*d[0]+wy*d[1] >= 0 {
+			if wx*d[1]-wy*d[0] != 0 || wx*d[0]+wy*d[1] < 0 {
+				continue
+			}
+			// the shadow passes through v at parameter t = (w.d)/(d.d) (half units); z there, doubled
+			num, den := wx*d[0]+wy*d[1], d[0]*d[0]+d[1]*d[1]
+			// z2 = o_z + t*d_z in half units, compared with the doubled z range, all times den
+			z := o[2]*den + num*d[2]
+			if z >= 2*w.z0*den && z <= 2*w.z1*den {
 				return true
 			}
 		}
